@@ -421,11 +421,45 @@ func c38FundListConserved(c *core.Ctx) {
 				}
 			}
 		}
+		// The reviewed exit is dead only as long as the validator contract's unBondTokens returns no data
+		// (resolveUnStakedUnBondResponse then answers the requested amount, so the running total never
+		// exceeds it). Once unBondTokens reports an amount through Finish the branch is live and drops
+		// the tail of the list: the exemption is tied to that fact, re-derived on every run.
+		if afterSave {
+			if reports := c38UnBondReports(c); reports != "" {
+				c.Fail("C38/fund-list-conserved", fmt.Sprintf("delegation.withdraw/loop-exit#%d", i), firstPos(to),
+					"the validator contract reports the amount it unbonded ("+reports+"), so withdraw's partial-unbond branch at "+c.P.Pos(firstPos(to))+" can be taken: it leaves the loop without keeping the partially paid fund or the funds after it in the delegator's list - they stay in storage and in TotalUnStaked while no delegator references them")
+				continue
+			}
+		}
 		c.Check(afterSave, "C38/fund-list-conserved", fmt.Sprintf("delegation.withdraw/loop-exit#%d", i), firstPos(to),
-			"reviewed exit: the partial-unbond branch (taken only when the validator contract unbonds less than requested)",
+			"reviewed exit: the partial-unbond branch, dead while validatorSC.unBondTokens returns no data (checked: no Finish in its cone)",
 			"the loop over the delegator's unstaked funds is left early at "+c.P.Pos(firstPos(to))+" on a path that can succeed: the funds after this one are dropped from the delegator's list although they stay in storage and in TotalUnStaked")
 	}
 	c.Floor("C38/fund-list-conserved", 2)
+}
+
+// c38UnBondReports returns the position of a Finish call reachable from validatorSC.unBondTokens
+// through the contract's own methods ("" when there is none).
+func c38UnBondReports(c *core.Ctx) string {
+	fn := c.P.Method("vm/systemSmartContracts", "validatorSC", "unBondTokens")
+	if fn == nil {
+		c.Undecided("anchor", "validatorSC.unBondTokens", 0, "method not found")
+		return ""
+	}
+	own := func(f *ssa.Function) bool {
+		return f.Signature.Recv() != nil && strings.HasSuffix(f.Signature.Recv().Type().String(), "systemSmartContracts.validatorSC")
+	}
+	pos := ""
+	for _, f := range c.P.Cone([]*ssa.Function{fn}, func(f *ssa.Function) bool { return !own(f) && f.Parent() == nil }) {
+		c.Analysed(fname(f))
+		core.Instrs(f, func(in ssa.Instruction) {
+			if cc := core.CallOf(in); cc != nil && cc.IsInvoke() && cc.Method.Name() == "Finish" && pos == "" {
+				pos = c.P.Pos(in.Pos())
+			}
+		})
+	}
+	return pos
 }
 
 // onlyFailureCodesFrom reports whether every path from b ends in a return of a constant
